@@ -132,7 +132,11 @@ def _r1_output(repo, report, rule):
     comp = [c for c in consts if ".gz" in c]
     fa = [c for c in consts if ".fasta" in c]
     fq = [c for c in consts if ".fastq" in c]
-    ok = bool(comp) and set(comp[0]) >= {".gz", ".bz2", ".xz", ".zst"} and bool(fa) and {".fasta", ".fa"} <= set(fa[0]) and bool(fq) and {".fastq", ".fq"} <= set(fq[0])
+    # the table must be dnaio's own (frozen fact, dnaio 1.2.4 singleend._detect_format_from_name): the serial writer lets
+    # dnaio decide by name when no explicit format is given, the proxied writer can only be told explicitly
+    DNAIO_FASTA = {".fasta", ".fa", ".fna", ".csfasta", ".csfa"}
+    DNAIO_FASTQ = {".fastq", ".fq"}
+    ok = bool(comp) and set(comp[0]) >= {".gz", ".bz2", ".xz", ".zst"} and bool(fa) and set(fa[0]) == DNAIO_FASTA and bool(fq) and set(fq[0]) == DNAIO_FASTQ
     # order: compression suffix removed before the extension is taken
     loops = [n for n in ast.walk(fn) if isinstance(n, ast.For)]
     split = [n for n in ast.walk(fn) if isinstance(n, ast.Call) and chain(n.func) == "os.path.splitext"]
@@ -140,7 +144,7 @@ def _r1_output(repo, report, rule):
     rets = {src(n.value) for n in ast.walk(fn) if isinstance(n, ast.Return)}
     ok = ok and rets == {"'fasta'", "'fastq'", "None"}
     report.ob(rule, "files.detect_format_from_name", ok, facts={"compression_suffixes": comp[:1], "fasta": fa[:1], "fastq": fq[:1], "returns": sorted(rets)},
-              expected="strip .gz/.bz2/.xz/.zst, then .fasta/.fa... -> 'fasta', .fastq/.fq -> 'fastq', else None - identically for every compression suffix", loc=repo.loc(fn))
+              expected="strip .gz/.bz2/.xz/.zst, then exactly dnaio's tables: .fasta/.fa/.fna/.csfasta/.csfa -> 'fasta', .fastq/.fq -> 'fastq', else None - identically for every compression suffix", loc=repo.loc(fn))
     # ProxyRecordWriter forwards the keyword arguments unchanged to dnaio.open and restores them after pickling (C06.R5)
     c, pi = repo.need_method("ProxyRecordWriter", "__init__")
     op = [x for x in calls(pi) if any(src(a) == "dnaio.open" for a in x.args) or chain(x.func) == "dnaio.open"]
